@@ -18,8 +18,9 @@ Oracle, per checked call (failure texts start with a tag):
   [oracle-model] the cells recomputed after the call are not the ones predicted from the corner/side/face
                 identifications of the call (would be a bug of this file or an unexpected topology).
 A data-clause failure of a 1-sew/1-unsew on a dart of a 3-sewn face is prefixed with `[1-sew-on-3-sewn-face]` when
-`one_sew_signature` recognises its cause (the vertex ids computed by one_sew/one_unsew on the open 3-sewn face are not
-the smallest darts of the vertex cells); only a known finding with matcher kind `one-sew-on-3-sewn-face` absorbs it.
+`one_sew_signature` recognises the cause of the former defect D13 (FIXED in /repo e8bc83e: vertex_id_transac did not traverse
+b2(b3(d)), so on the open 3-sewn face the ids computed by one_sew/one_unsew were not the smallest darts of the vertex cells).
+No known finding absorbs the tag any more: a reappearance is a VIOLATION; the tag only tells what to look at.
 The data clauses are evaluated on well-formed, mirrored maps with closed faces (2-/3-calls: before the call;
 1-sew: after it; 1-unsew: before it) and, per cell kind, only when no cell takes part in two identifications of
 the call (the property's proviso) — otherwise the kind is counted in `skipped-multi`.
@@ -76,9 +77,8 @@ SPEC = {
         "pairs are the pairs of cells united by the 3-link on closed faces: oracle only",
         "ring-closing configurations where a cell takes part in two identifications of one call, and every other such configuration: "
         "correspondence only (the data clause of the oracle is skipped there, counted as skipped-multi)",
-        "1-sew/1-unsew of a dart of a 3-sewn face whose vertex has a 2-free dart misplace the vertex data (one_sew/one_unsew compute "
-        "vertex ids on the open 3-sewn face, where vertex_id_transac is not symmetric): genuine defect found by the oracle, reported as "
-        "a known finding (matcher kind one-sew-on-3-sewn-face) — the 1-sew/1-unsew data clause is false there",
+        "D13 (1-sew/1-unsew of a dart of a 3-sewn face misplaced the vertex data: vertex_id_transac was not symmetric on the open "
+        "3-sewn face) was a genuine defect found by this oracle, repaired by /repo e8bc83e; the oracle now passes on those calls too",
     ],
 }
 
@@ -86,7 +86,7 @@ VSTORES, ESTORES, FSTORES, CSTORES = (0, 1, 5), (2,), (3,), (4,)
 STORES = {"v": VSTORES, "e": ESTORES, "f": FSTORES, "c": CSTORES}
 KINDS_OF_DIM = {1: ("v",), 2: ("v", "e"), 3: ("v", "e", "f")}
 # generator images of dim3/orbits.rs as index paths (a, b) = β_b(β_a(x)); the union-find closes them under inverses
-GEN = {"v": [(2, 3), (3, 1), (2, 1), (0, 3), (0, 2)], "e": [(2,), (3,)], "f": [(1,), (0,), (3,)], "c": [(1,), (0,), (2,)]}
+GEN = {"v": [(2, 3), (3, 1), (2, 1), (0, 3), (0, 2), (3, 2)], "e": [(2,), (3,)], "f": [(1,), (0,), (3,)], "c": [(1,), (0,), (2,)]}
 OP_RE = re.compile(r"^(f?)(sew|unsew) ([123]) ([0-9]+)(?: ([0-9]+))?$")
 LINK_RE = re.compile(r"^(f?)(link|unlink) ([123]) ([0-9]+)(?: ([0-9]+))?$")
 
@@ -324,11 +324,12 @@ def check_kind(kind, part0, part1, vals0, vals1, sew):
 
 
 def bfs_min(b, n, d):
-    """what `vertex_id_transac` computes: the smallest dart reachable from d through the five images (no inverses)"""
+    """what `vertex_id_transac` computed BEFORE /repo e8bc83e (D13): the smallest dart reachable from d through the former
+    five images (without b2(b3(d)), the inverse of b3(b2(d)))"""
     seen, todo = {d}, [d]
     while todo:
         x = todo.pop()
-        for path in GEN["v"]:
+        for path in GEN["v"][:5]:
             y = x
             for i in path:
                 y = b[i][y] if y < n else 0
